@@ -184,6 +184,7 @@ type c19Case struct {
 	Exclude     []mentry `json:"exclude,omitempty"`
 	ExcludeExpr string   `json:"exclude_expr,omitempty"`
 	Indent      int      `json:"indent"`
+	KeyCase     int      `json:"key_case,omitempty"` // > 0: row / include / exclude keys are written in varying letter case (keys are case-insensitive)
 }
 
 type c19Expect struct {
@@ -224,6 +225,20 @@ func c19BuildJobs(cs []*c19Case, indent int) (string, *c19Expect) {
 // from the reference model once positions are known.
 func (c *c19Case) job() (*ye.Node, func(exp *c19Expect)) {
 	job := ye.M()
+	nkey := 0
+	spellKey := func(k string) string {
+		if c.KeyCase == 0 || k == "include" || k == "exclude" {
+			return k
+		}
+		nkey++
+		switch (c.KeyCase + nkey) % 4 {
+		case 0:
+			return strings.ToUpper(k)
+		case 1:
+			return strings.ToUpper(k[:1]) + k[1:]
+		}
+		return k
+	}
 	strat := ye.M()
 	matrix := ye.M()
 	type rowNodes struct {
@@ -233,7 +248,7 @@ func (c *c19Case) job() (*ye.Node, func(exp *c19Expect)) {
 	var rns []rowNodes
 	for _, r := range c.Rows {
 		if r.Expr != "" {
-			matrix.Set(r.Key, ye.S(r.Expr))
+			matrix.Set(spellKey(r.Key), ye.S(r.Expr))
 			rns = append(rns, rowNodes{row: r})
 			continue
 		}
@@ -244,7 +259,7 @@ func (c *c19Case) job() (*ye.Node, func(exp *c19Expect)) {
 			nodes = append(nodes, n)
 			l.Vals = append(l.Vals, n)
 		}
-		matrix.Set(r.Key, l)
+		matrix.Set(spellKey(r.Key), l)
 		rns = append(rns, rowNodes{r, nodes})
 	}
 	entryNodes := func(es []mentry) (*ye.Node, [][]*ye.Node, [][]*ye.Node) {
@@ -262,7 +277,7 @@ func (c *c19Case) job() (*ye.Node, func(exp *c19Expect)) {
 			for i, k := range e.Keys {
 				vn := e.Vals[i].node()
 				vs = append(vs, vn)
-				m.Set(k, vn)
+				m.Set(spellKey(k), vn)
 			}
 			l.Vals = append(l.Vals, m)
 			keyNodes = append(keyNodes, m.Keys)
@@ -642,6 +657,9 @@ func c19derive(t *rapid.T, v *mval) *mval {
 
 func c19gen(t *rapid.T) *c19Case {
 	c := &c19Case{Indent: rapid.IntRange(1, 4).Draw(t, "indent")}
+	if rapid.IntRange(0, 2).Draw(t, "keycase") == 0 {
+		c.KeyCase = rapid.IntRange(1, 4).Draw(t, "keycasesalt")
+	}
 	nrows := rapid.IntRange(1, 3).Draw(t, "nrows")
 	for i := 0; i < nrows; i++ {
 		r := mrow{Key: []string{"os", "ver", "cfg"}[i]}
@@ -805,7 +823,7 @@ func c19permute(t *rapid.T, c *c19Case) *c19Case {
 
 func TestC19(t *testing.T) {
 	hx.Main(t, "C19", func(r *hx.Run) {
-		r.Rule = "matrices as value trees (scalars, sequences, mappings nested to depth 3, drawn from a small pool and derived from each other by keeping/dropping/adding/changing/permuting members so that equal and subset-related values are frequent), include/exclude entries derived from row values, some rows/entries/sections given by expressions; each matrix is also re-rendered under a random permutation of rows, values, members and entries. Oracle: reference model (deep equality for duplicates; subset/element-wise/equality containment for exclude against row values + include assignments), exact report positions from the emitter; counts invariant under permutation; 2-3 generated matrices are also rendered as jobs of ONE workflow and every job must get exactly the reports it gets alone. Non-trivial = matrix with a pair of equal or subset-related structured values or a literal exclude entry; distinct = YAML text."
+		r.Rule = "matrices as value trees (scalars, sequences, mappings nested to depth 3, drawn from a small pool and derived from each other by keeping/dropping/adding/changing/permuting members so that equal and subset-related values are frequent), include/exclude entries derived from row values, some rows/entries/sections given by expressions; in a third of the matrices the row / include / exclude keys are written in varying letter case; each matrix is also re-rendered under a random permutation of rows, values, members and entries. Oracle: reference model (deep equality for duplicates; subset/element-wise/equality containment for exclude against row values + include assignments), exact report positions from the emitter; counts invariant under permutation; 2-3 generated matrices are also rendered as jobs of ONE workflow and every job must get exactly the reports it gets alone. Non-trivial = matrix with a pair of equal or subset-related structured values or a literal exclude entry; distinct = YAML text."
 		r.Assumptions = []string{"scalars are plain and distinct spellings are distinct values", "identical expression scalars repeated in one row are not generated (textual duplicates)", "exclude checking is skipped entirely when include contains an expression (documented give-up)"}
 		r.Check(t, "matrices", hx.N(6000, 120000), func(rt *rapid.T) {
 			c := c19gen(rt)
